@@ -114,6 +114,17 @@ func ruleWitnessBytesImmutable(w *World, r *Run, rule string) {
 						}
 					}
 				}
+				// strconv.AppendUint(x[:0], …), fmt.Appendf(x[:0], …), AppendEncode(x[:0], …): the Append family writes into the
+				// capacity of the slice it is handed
+				if sc := x.Call.StaticCallee(); sc != nil && strings.HasPrefix(sc.Name(), "Append") && len(x.Call.Args) > 0 {
+					a0 := x.Call.Args[0]
+					if sc.Signature.Recv() != nil && len(x.Call.Args) > 1 {
+						a0 = x.Call.Args[1]
+					}
+					if sl, ok := a0.(*ssa.Slice); ok && derived[sl.X] && isByteSlice(sl.Type()) {
+						r.Fail(rule, key, w.pos(x.Pos()), short(funcName(sc))+" appends into a prefix of the checkpoint bytes the witness handed out: it overwrites them in place, and with the in-memory store that is the stored checkpoint")
+					}
+				}
 			case *ssa.Store:
 				if ia, ok := x.Addr.(*ssa.IndexAddr); ok && derived[ia.X] {
 					r.Fail(rule, key, w.pos(x.Pos()), "a byte of the checkpoint the witness handed out is overwritten in place")
